@@ -29,3 +29,14 @@ pub fn services() -> Vec<&'static str> {
         "transcribe", "polly", "translate", "S3", "aws4_request",
     ]
 }
+
+/// Global condition keys IAM defines for a session (those that exist only for temporary credentials, MFA and
+/// federation included). To a library that hands session data through they are keys like any other.
+pub fn session_keys() -> Vec<&'static str> {
+    vec![
+        "aws:username", "aws:userid", "aws:PrincipalArn", "aws:PrincipalAccount", "aws:PrincipalOrgID", "aws:PrincipalType",
+        "aws:PrincipalTag/team", "aws:TokenIssueTime", "aws:MultiFactorAuthPresent", "aws:MultiFactorAuthAge", "aws:FederatedProvider",
+        "aws:SourceIdentity", "aws:RoleSessionName", "aws:SourceIp", "aws:SecureTransport", "aws:CurrentTime", "aws:EpochTime",
+        "aws:RequestedRegion", "aws:UserAgent", "aws:Referer", "aws:ViaAWSService", "aws:CalledVia", "aws:SourceVpc", "aws:SourceVpce",
+    ]
+}
